@@ -305,8 +305,8 @@ impl Property for C06 {
     }
     fn plan(&self, tier: Tier) -> Vec<Segment> {
         vec![
-            Segment::random("histories", tier.pick(40_000, 600_000), &[0], 8, 600),
-            Segment::random("histories-long-vectors", tier.pick(6_000, 100_000), &[1], 8, 600),
+            Segment::random("histories", tier.pick(150_000, 2_000_000), &[0], 8, 600),
+            Segment::random("histories-long-vectors", tier.pick(30_000, 300_000), &[1], 8, 600),
         ]
     }
     fn rule(&self) -> &'static str {
